@@ -1,7 +1,7 @@
 (* C06 — the router dispatches to the route the documented priority selects. *)
 From Coq Require Import String.
 From Coq Require Import List Strings.Byte NArith Bool Arith Permutation.
-Require Import Bytes Show Router RouterProofs.
+Require Import Bytes Show Router RouterProofs Radix RadixProofs.
 Import ListNotations.
 
 (* `find` is router.find's search (static, then parameter, then catch-all, backtracking) over the
@@ -47,6 +47,31 @@ Theorem C06_rule_is_deterministic : forall rs s p h q h',
   distinct rs -> is_best rs s p h -> is_best rs s q h' -> p = q /\ h = h'.
 Proof. exact is_best_unique. Qed.
 Print Assumptions C06_rule_is_deterministic.
+
+
+(* the compressed tree.  `Radix.insert` / `add_route` are router.insert / addRoute (edge splitting,
+   static / parameter / catch-all children); the real tree is compared node by node with the
+   model's tree for every generated route set and registration order, and for each of them the
+   model evaluates `wfb` and checks that the tree holds exactly the registered patterns.  For EVERY
+   well-formed tree with a static root, the recursive lookup is the priority search over the
+   routes the tree holds — so by C06_dispatch it returns the documented best match *)
+Theorem C06_radix_lookup_is_the_search : forall (n : node) (s : bs) (f : nat),
+  wf n -> nkind n = Sk -> short (S f) (paths n) ->
+  ft n s = option_map fst (find (S f) (paths n) s).
+Proof. exact radix_lookup_is_the_search. Qed.
+Print Assumptions C06_radix_lookup_is_the_search.
+
+Theorem C06_wf_check_is_sound : forall n, wfb n = true -> wf n.
+Proof. exact wfb_sound. Qed.
+Print Assumptions C06_wf_check_is_sound.
+
+Example C06_radix_nonvacuous :
+  radix_script [B "2,0,1"; B "/ab/:x"; B "/a/*f"; B "/abc"] =
+  B "wf=1 routes=1 " ++ [x53; x22] ++ B "/a" ++ [x22] ++ B "[" ++
+    [x53; x22] ++ B "b" ++ [x22] ++ B "[" ++ [x53; x22] ++ B "c" ++ [x22] ++ B "=2[|-|-]," ++
+       [x53; x22] ++ B "/" ++ [x22] ++ B "[|" ++ [x50; x22] ++ B ":" ++ [x22] ++ B "=0[|-|-]|-]|-|-]," ++
+    [x53; x22] ++ B "/" ++ [x22] ++ B "[|-|" ++ [x41; x22] ++ B "*" ++ [x22] ++ B "=1[|-|-]]|-|-]".
+Proof. vm_compute. reflexivity. Qed.
 
 Example C06_nonvacuous :
   route_find false [B "/:a/x"; B "/*any"; B "/u/:id/f"; B "/u/me/f"] (B "/q/y") = B "H1 /*any any=712f79" /\
